@@ -85,6 +85,7 @@ func printerReplay(args []string) {
 	installHook(*hook)
 	rep := lib.NewReport(*prop, "printer-replay")
 	defer installPoolMonitor(rep)()
+	mon := installModeMonitor(rep, 0) // scripted user programs (call-backs, nested printers, panics) under the mode monitor
 	lib.Parallel(runtime.NumCPU(), func(emit func([]byte)) {
 		_ = lib.TLCLines(os.Stdin, func(raw []byte) { emit(append([]byte(nil), raw...)) })
 	}, func(raw []byte) {
@@ -95,6 +96,7 @@ func printerReplay(args []string) {
 		rep.AddReplayed(1)
 		replayPrinterLine(rep, *prop, &ln, raw)
 	})
+	mon.stop("")
 	rep.Finish()
 }
 
